@@ -1,6 +1,6 @@
 (* C34 — Accepted output is flushed and every dropped message is reported.
    Statements only; proofs are [exact lemma] or vm_compute witnesses. *)
-From MV Require Import Base.Val Session.Pkt IO.WriteBuf IO.WriteBufProofs.
+From MV Require Import Base.Val Session.Pkt IO.WriteBuf IO.WriteBufProofs IO.WriteFault.
 From MV Require Conc.WriteQueue Conc.WriteQueueProofs.
 Open Scope N_scope.
 
@@ -72,9 +72,37 @@ Theorem C34_fault_monitor_sound : forall reported written,
   WriteBuf.fault_ok reported written false = true -> forall k, In k reported -> In k written.
 Proof. exact WriteBufProofs.fault_ok_sound. Qed.
 
+(* TRANSIENT WRITE FAULTS (IO/WriteFault.v: any Write call of the connection may fail once, writing nothing; the write
+   loop's retry through flushIdle succeeds; a handler that gets the error ends the connection).  For every history of
+   WritePacket calls and every placement of such faults (not on a packet refused before the buffer logic): if the
+   connection was not ended and is idle, nothing is left in the write buffer and every packet reported as sent has been
+   written - clause 1 "nothing is stranded in an internal buffer because a later write failed". *)
+Theorem C34_flushed_despite_faults : forall thr (evs : list (wev * bool)),
+  (forall e f, In (e, f) evs -> e_early e = true -> f = false) ->
+  snd (frun thr evs) = false -> idle_after (map fst evs) = true ->
+  outbuf (fst (frun thr evs)) = [] /\
+  forall id, In id (reported (fst (frun thr evs))) -> In id (written (fst (frun thr evs))).
+Proof. exact fault_flushed. Qed.
+
+(* without faults the fault model IS the model the writebuf engine runs against clients.go *)
+Theorem C34_fault_model_extends : forall thr evs,
+  frun thr (map (fun e => (e, false)) evs) = (wrun thr evs, false).
+Proof. exact frun_nofault. Qed.
+
+(* non-vacuity: a parked PUBACK (1), then the queued PUBLISH (2) whose flush fails: reported dropped, the retry writes
+   both; the hypotheses hold *)
+Example C34_faults_nonvacuous :
+  let evs := [({| e_src := Direct; e_id := 1; e_size := 4; e_early := false; e_qempty := false |}, false);
+              ({| e_src := Loop; e_id := 2; e_size := 30; e_early := false; e_qempty := true |}, true)] in
+  snd (frun 64 evs) = false /\ idle_after (map fst evs) = true /\
+  written (fst (frun 64 evs)) = [1; 2] /\ reported (fst (frun 64 evs)) = [1] /\ dropped (fst (frun 64 evs)) = [2].
+Proof. vm_compute. repeat split. Qed.
+
 Print Assumptions C34_flushed.
 Print Assumptions C34_drops_reported.
 Print Assumptions C34_refusals_reported.
 Print Assumptions C34_write_calls_shape.
 Print Assumptions C34_flushed_all_schedules.
 Print Assumptions C34_fault_monitor_sound.
+Print Assumptions C34_flushed_despite_faults.
+Print Assumptions C34_fault_model_extends.
